@@ -94,8 +94,6 @@ Fixpoint find_cell (sp : list scell) (r c : Z) : tcell :=
   | (r', c', x) :: rest => if (r =? r') && (c =? c') then x else find_cell rest r c
   end.
 
-Definition zseq (n : Z) : list Z := map Z.of_nat (seq 0 (Z.to_nat n)).
-
 Definition dense (rows cols : Z) (sp : list scell) : grid :=
   map (fun r => map (fun c => find_cell sp r c) (zseq cols)) (zseq rows).
 
